@@ -27,7 +27,8 @@ import time
 import traceback
 
 ROOT = os.path.dirname(os.path.dirname(os.path.abspath(__file__)))
-REPO_SRC = "/repo/src"
+# the registered checks always run /repo; VERIF_REPO redirects to a scratch worktree when trying out mutants
+REPO_SRC = os.path.realpath(os.path.join(os.environ.get("VERIF_REPO", "/repo"), "src"))
 
 
 class HarnessError(Exception):
@@ -44,6 +45,8 @@ def _worker_init():
     sys.dont_write_bytecode = True
     if ROOT not in sys.path:
         sys.path.insert(0, ROOT)
+    if sys.path[0] != REPO_SRC:
+        sys.path.insert(0, REPO_SRC)
     import warnings
 
     warnings.filterwarnings("ignore")
@@ -99,8 +102,9 @@ def _match_known(known, pid, sig):
 
 
 def write_evidence(pid, ev):
-    os.makedirs(os.path.join(ROOT, "evidence"), exist_ok=True)
-    p = os.path.join(ROOT, "evidence", f"{pid}.json")
+    d = os.environ.get("VERIF_EVIDENCE_DIR", os.path.join(ROOT, "evidence"))
+    os.makedirs(d, exist_ok=True)
+    p = os.path.join(d, f"{pid}.json")
     tmp = p + ".tmp"
     with open(tmp, "w") as f:
         json.dump(ev, f, indent=1, sort_keys=True, default=str)
@@ -147,16 +151,22 @@ def main(argv=None):
     step = max(1, n // nslice)
     slice_idx = [(seed + k * step) % n for k in range(nslice)]
     slice_idx = sorted(set(slice_idx))
-    chunks.append([(i, cases[i]) for i in slice_idx])
+    tasks = [("slice", [(i, cases[i])]) for i in slice_idx] + [("main", ch) for ch in chunks if ch]
 
-    ctx = mp.get_context("spawn")
+    # fork after importing torch/torchjd once in the parent (16 parallel imports cost ~12 s of wall time);
+    # the parent never runs a torch op before forking. VERIF_START=spawn selects the slower, stricter method.
+    start = os.environ.get("VERIF_START", "fork")
+    if start == "fork":
+        _worker_init()
+        _load(pid)
+    ctx = mp.get_context(start)
     results = {}
     second = {}
     harness_errors = []
-    nw = max(1, min(args.workers, len(chunks)))
+    nw = max(1, min(args.workers, len(tasks)))
     with ctx.Pool(nw) as pool:
-        for k, res in enumerate(pool.imap(_run_chunk, [(pid, ch) for ch in chunks])):
-            is_slice = k == len(chunks) - 1
+        for k, res in enumerate(pool.imap(_run_chunk, [(pid, ch) for _, ch in tasks])):
+            is_slice = tasks[k][0] == "slice"
             for idx, r, err in res:
                 if err is not None:
                     harness_errors.append((idx, err))
@@ -180,7 +190,7 @@ def main(argv=None):
 
     known = load_known()
     agg = dict(
-        execs=0, dropped=0, nontrivial=0, outcomes=set(), margin=0.0, counters={}, viol=[], margin_case=None
+        execs=0, dropped=0, nontrivial=0, outcomes=set(), margin=0.0, counters={}, maxima={}, viol=[], margin_case=None
     )
     for i in range(n):
         r = results[i]
@@ -193,6 +203,9 @@ def main(argv=None):
             agg["margin"], agg["margin_case"] = m, i
         for k, v in (r.get("counters") or {}).items():
             agg["counters"][k] = agg["counters"].get(k, 0) + v
+        for k, v in (r.get("maxima") or {}).items():
+            if v > agg["maxima"].get(k, -1.0):
+                agg["maxima"][k] = v
         for v in r.get("viol", []):
             agg["viol"].append((i, v))
     extra_notes = {}
@@ -251,6 +264,7 @@ def main(argv=None):
         bound=spec.get("bound", {}).get(args.tier, ""),
         caps_hit=[],
         counters=agg["counters"],
+        margins_by_oracle={k: float(f"{v:.4g}") for k, v in sorted(agg["maxima"].items())},
         determinism_slice=len(second),
         known_findings_matched=n_known,
         explanation=spec.get("explanation", ""),
@@ -272,6 +286,8 @@ def main(argv=None):
         f"nontrivial={agg['nontrivial']} dropped={agg['dropped']} worst_margin={agg['margin']:.3g} "
         f"violations={n_viol} known={n_known} wall={wall:.1f}s"
     )
+    if agg["maxima"]:
+        print("  margins(err/tol) by oracle:", {k: float(f"{v:.3g}") for k, v in sorted(agg["maxima"].items())})
     if n_viol:
         return 1
     # vacuity: fail closed (harness problem, not a violation)
